@@ -54,8 +54,11 @@ func verifInstallClock(start int64) {
 }
 
 func verifAdvance() int64 {
-	dt := verifI64("dt")
-	verifAssume(dt >= 0 && dt <= 1<<40)
+	// time moves in steps of 2^20 ns (about a millisecond), up to about 13 days at once: any time
+	// that gets lost or counted twice is then far above the rounding of the float counters
+	x := verifI64("dt")
+	verifAssume(x >= 0 && x <= 1<<20)
+	dt := x << 20
 	verifClockNs += dt
 	return dt
 }
